@@ -1,6 +1,6 @@
 (* GoParseProofs.v — the body of ParseValidNameKV extracted from /repo computes the model's parse_kv. *)
 From Coq Require Import String.
-From PGV Require Import Base.Bytes Base.GoStr Base.Utf8 Base.MiniGo Extracted.SourceConst Extracted.SourceFns.
+From PGV Require Import Base.Bytes Base.GoStr Base.Utf8 Base.MiniGo Extracted.SourceConst Extracted.SourceFnsParse.
 From PGV Require Import Model.RuleText Model.GoParse.
 Open Scope Z_scope.
 
